@@ -356,9 +356,9 @@ def main():
                              "max_subnets": max(len(x["subnets"]) for x in cases)}
 
     def coq_filter(case, out):
-        i = "(%s, %s)" % (
-            vplib.coq_list(["(%d, %d, %d)" % s for s in case["subnets"]]),
-            vplib.coq_list(["(%d, %d)" % a for a in case["addrs"]]))
+        i = "(mk_case %s %s)" % (
+            vplib.coq_list(["%d; 0x%x; %d" % s for s in case["subnets"]]),
+            vplib.coq_list(["%d; 0x%x" % a for a in case["addrs"]]))
         if out and out[0] == "PANIC":
             return i, "[(-2)%Z]"
         o = []
